@@ -84,3 +84,6 @@ func ghostIface(name string, key interface{}) interface{} { return nil }
 // mapVal(m): the contents of map m as a value (domain and values), for
 // comparing a map with its earlier self: same(mapVal(m), old(mapVal(m))).
 func mapVal[M any](m M) M { return m }
+
+// lastCallee(t, f): the most recent call in t was a call of f.
+func lastCallee[F any](t traceT, f F) bool { return t.n > 0 }
